@@ -16,32 +16,84 @@ Decided:
          argument or os.urandom; the cookie is provided under arg_name (= provides); save_cookie runs on the
          next() result on every normal path; _expires is stamped only when absent and expiry is numeric.
 Declined: cryptographic strength, JSON round-trip fidelity, clock behaviour around the expiry instant.
+
+Constructs are recognised by role, not by spelling: values are followed through single-assignment locals and
+(CFG) reaching definitions, conditions are taken from the path conditions in either polarity, constants are
+folded through module-level names, arguments are accepted in keyword or positional spelling.
 """
 import ast
+import codecs
 
 from ..core import AnalysisError, norm, short
+from ..astutil import argn, assigned_value
+from ..layers import layers_of_var, layers_of_expr
 from .common import (cfg_of, fkey, conds, has_cond, cond_texts, stmts_of, walk_body, call_tail, call_name,
-                     returns_of, raises_of, raise_type, protected_by, stmt_of, kwarg, handler_reraises_always)
-from .c15 import next_derived, is_next_call
+                     returns_of, raise_type, protected_by, stmt_of, handler_reraises_always)
+from .c15 import next_derived
 
 COOKIE = 'clastic.middleware.cookie'
 DECODERS = {'b64decode', 'decode', 'loads', 'url_unquote_plus', 'url_unquote', 'unhexlify', 'fromhex', 'int', 'float',
             'urlsafe_b64decode', 'b32decode', 'b16decode'}
+STRIPS = ('strip', 'lstrip', 'rstrip')
+EXPIRES = '_expires'
+_NOFOLD = object()
+
+
+class _Ctx(object):
+    """What the four rule groups share: the modules, the anchor functions and the two calls of the load path."""
+
+    def __init__(self, rep):
+        repo = self.repo = rep.repo
+        self.ck = repo.mod(COOKIE)
+        self.dep = repo.mod('secure_cookie.cookie')
+        self.un = self.dep.func('SecureCookie.unserialize')
+        self.ju = self.ck.func('JSONCookie.unserialize')
+        self.rq = self.ck.func('SignedCookieMiddleware.request')
+        self.sup_calls = [c for c in walk_body(self.ju.node) if isinstance(c, ast.Call) and call_tail(c) == 'unserialize'
+                          and isinstance(c.func, ast.Attribute) and isinstance(c.func.value, ast.Call) and call_name(c.func.value) == 'super']
+        self.load_calls = [c for c in walk_body(self.rq.node) if isinstance(c, ast.Call) and call_tail(c) == 'load_cookie']
+        if len(self.sup_calls) != 1 or len(self.load_calls) != 1:
+            raise AnalysisError('cookie call path changed: super().unserialize x%d, load_cookie x%d'
+                                % (len(self.sup_calls), len(self.load_calls)))
+
+    def fold(self, e):
+        return self.repo.try_fold(e, self.ck, _NOFOLD) if e is not None else _NOFOLD
 
 
 def run(rep):
-    repo = rep.repo
-    ck = repo.mod(COOKIE)
-    dep = repo.mod('secure_cookie.cookie')
     rep.decide('R16.a malformed cookies cannot raise out of the load; R16.b unquote total; R16.c MAC dominates use; '
                'R16.d key plumbing, provide-under-name, save on every path')
     rep.decline('cryptographic strength; JSON round-trip fidelity; clock behaviour at the expiry instant')
     rep.assume('binascii.Error and UnicodeDecodeError are ValueError subclasses (CPython)')
     rep.assume('secure-cookie 0.1.0 as parsed from site-packages/secure_cookie/cookie.py')
+    try:
+        cx = _Ctx(rep)
+    except AnalysisError:
+        raise
+    except Exception as e:
+        raise AnalysisError('cookie module: anchors not recognised (%s: %s)' % (type(e).__name__, e))
+    for group in (rule_a, rule_b, rule_c, rule_d):
+        rep.guard(_no_crash(group), rep, cx)
 
-    # ---- R16.a -----------------------------------------------------------
+
+def _no_crash(fn):
+    """An unexpected shape (IndexError, AttributeError, ... inside a rule) is an analysis gap, never a crash."""
+    def group(rep, cx):
+        try:
+            return fn(rep, cx)
+        except AnalysisError:
+            raise
+        except Exception as e:
+            raise AnalysisError('unrecognised code shape (%s: %s)' % (type(e).__name__, e))
+    group.__name__ = fn.__name__
+    return group
+
+
+# ---------------------------------------------------------------------------------------------- R16.a
+def rule_a(rep, cx):
+    ck, dep, un, ju, rq = cx.ck, cx.dep, cx.un, cx.ju, cx.rq
+    sup_call, load_call = cx.sup_calls[0], cx.load_calls[0]
     rep.rule('R16.a', 'uncovered decoding primitives of the dependency are under a clastic handler that yields an empty cookie')
-    un = dep.func('SecureCookie.unserialize')
     prims = []
     for n in walk_body(un.node):
         if isinstance(n, ast.Call) and call_tail(n) in DECODERS:
@@ -58,18 +110,11 @@ def run(rep):
             uncovered.append(p)
     rep.extra['dependency_primitives'] = [norm(p) for p in prims]
     rep.extra['dependency_uncovered'] = [norm(p) for p in uncovered]
-    ju = ck.func('JSONCookie.unserialize')
-    rq = ck.func('SignedCookieMiddleware.request')
-    sup_calls = [c for c in walk_body(ju.node) if isinstance(c, ast.Call) and call_tail(c) == 'unserialize'
-                 and isinstance(c.func.value, ast.Call) and call_name(c.func.value) == 'super']
-    load_calls = [c for c in walk_body(rq.node) if isinstance(c, ast.Call) and call_tail(c) == 'load_cookie']
-    if len(sup_calls) != 1 or len(load_calls) != 1:
-        raise AnalysisError('cookie call path changed: super().unserialize x%d, load_cookie x%d' % (len(sup_calls), len(load_calls)))
     # the dependency's load_cookie reaches cls.unserialize unprotected?
     lc = dep.func('SecureCookie.load_cookie')
     lc_un = [c for c in walk_body(lc.node) if isinstance(c, ast.Call) and call_tail(c) == 'unserialize']
     dep_guard = bool(lc_un) and all(protected_by(lc, c, 'ValueError') is not None for c in lc_un)
-    frames = [(ju, sup_calls[0]), (rq, load_calls[0])]
+    frames = [(ju, sup_call), (rq, load_call)]
     guard = None
     if uncovered and not dep_guard:
         for fi, c in frames:
@@ -83,7 +128,7 @@ def run(rep):
                          'decoding primitive %s in the dependency is not under a ValueError handler (enclosing handlers: %s) and '
                          'no clastic frame on request -> load_cookie -> JSONCookie.unserialize catches it: a malformed cookie '
                          '(e.g. clastic_cookie="a?b") makes the request fail with 500'
-                         % (short(p), _handlers_text(dep, un, p) or 'none'), ck, sup_calls[0])
+                         % (short(p), _handlers_text(dep, un, p) or 'none'), ck, sup_call)
         else:
             fi, c, h = guard
             for p in uncovered:
@@ -94,19 +139,19 @@ def run(rep):
             rep.check('R16.a', fkey(fi, 'handler does not re-raise'), no_raise, 'handler swallows the decoding error' if no_raise else
                       'the handler re-raises: the malformed cookie still fails the request', ck, h)
             if fi is ju:
-                rets = [s for s in ast.walk(h) if isinstance(s, ast.Return)]
-                ok = bool(rets) and all(isinstance(r.value, ast.Call) and norm(r.value.func) in ('cls', 'JSONCookie')
-                                        and (not r.value.args or _is_empty(r.value.args[0])) for r in rets)
-                ok = ok and isinstance(h.body[-1], ast.Return)
+                # what unserialize returns on the paths through the handler: directly (``return cls((), key, False)``)
+                # or through a local bound in the handler and returned after the try statement
+                vals = _returned_after(ju, h)
+                keyp = ju.params()[-1]
+                ok = vals is not None and bool(vals) and all(v is not None and _empty_cookie(cx, v) for _, v in vals)
                 rep.check('R16.a', fkey(fi, 'handler yields empty cookie'), ok,
                           'handler returns a cookie object constructed with no data' if ok else
                           'handler does not return an empty cookie (attacker-chosen or missing value)', ck, h)
                 if ok:
-                    r = rets[0]
-                    key_ok = len(r.value.args) >= 2 and norm(r.value.args[1]) == ju.params()[-1]
+                    key_ok = all(norm(argn(v, 'secret_key', 1)) == keyp for _, v in vals)
                     rep.check('R16.a', fkey(fi, 'empty cookie keeps the key'), key_ok,
                               'the fallback cookie is built with the same secret key (so it can be saved)' if key_ok else
-                              'fallback cookie is not given the secret key', ck, r)
+                              'fallback cookie is not given the secret key', ck, vals[0][0])
             else:
                 # handler in the middleware: must (re)bind the cookie variable to an empty cookie
                 asg = [s for s in h.body if isinstance(s, ast.Assign)]
@@ -121,7 +166,89 @@ def run(rep):
             rep.ok('R16.a', '%s::%s' % (un.key, norm(p)), 'covered by a ValueError handler inside the dependency', dep, p)
     rep.floor('R16.a', 3)
 
-    # ---- R16.b -----------------------------------------------------------
+
+def _empty_cookie(cx, e):
+    """``cls(<no data>, ...)`` / ``JSONCookie(<no data>, ...)`` (data = first parameter of SecureCookie.__init__)."""
+    if not (isinstance(e, ast.Call) and norm(e.func) in ('cls', 'JSONCookie')):
+        return False
+    if any(isinstance(a, ast.Starred) for a in e.args) or any(k.arg is None for k in e.keywords):
+        return False
+    d = argn(e, 'data', 0)
+    if d is None or _is_empty(d):
+        return True
+    v = cx.fold(d)
+    return v is None or (isinstance(v, (tuple, list, dict)) and not v)
+
+
+def _value_defs(fi, name):
+    """[(statement, value)] for the plain bindings of local ``name``; None when it is also bound in a way that has
+    no value expression (loop target, with-target, tuple unpacking, augmented assignment, except-as)."""
+    out = []
+    for st, v, idx in assigned_value(fi.node, name):
+        if idx is not None or not isinstance(st, (ast.Assign, ast.AnnAssign)):
+            return None
+        out.append((st, v))
+    return out
+
+
+def _reaching(fi, name, at_stmt, src_nodes):
+    """Values local ``name`` may hold at ``at_stmt`` on the paths that start at ``src_nodes``: [(def stmt, value)];
+    None when a path from src reaches the statement without binding the name (or a binding has no value expr)."""
+    cfg = cfg_of(fi)
+    defs = _value_defs(fi, name)
+    if defs is None:
+        return None
+    at = set(cfg.nodes_of(at_stmt))
+    dn = dict((id(st), set(cfg.nodes_of(st))) for st, _ in defs)
+    all_dn = set().union(*dn.values()) if dn else set()
+    if at & cfg.reach(list(src_nodes), avoid=all_dn):
+        return None
+    from_src = cfg.reach(list(src_nodes))
+    out = []
+    for st, v in defs:
+        mine = dn[id(st)] & from_src
+        if not mine:
+            continue
+        after = [m for n in mine for m in cfg.succ[n] if (n, m) not in cfg.exc_edges]
+        starts = [m for m in after if m not in all_dn]
+        if (at & set(after)) or (at & cfg.reach(starts, avoid=all_dn)):
+            out.append((st, v))
+    return out
+
+
+def _returned_after(fi, handler):
+    """[(return stmt, value expr)] for every return the handler's paths end in; value is None when it cannot be
+    named.  None when a path through the handler leaves the function without a return statement."""
+    cfg = cfg_of(fi)
+    hn = cfg.handler_nodes(handler)
+    if not hn:
+        return None
+    r = cfg.reach(hn, normal_only=True)
+    has_finally = any(isinstance(s, ast.Try) and s.finalbody for s in stmts_of(fi.node))
+    out = []
+    for n in r:
+        nd = cfg.nodes[n]
+        if cfg.exit in cfg.succ[n] and not isinstance(nd.stmt, ast.Return) and not has_finally:
+            return None     # falls off the end: returns None, not a cookie
+        if nd.kind != 'stmt' or not isinstance(nd.stmt, ast.Return):
+            continue
+        ret = nd.stmt
+        if ret.value is None:
+            out.append((ret, None))
+        elif isinstance(ret.value, ast.Name) and ret.value.id not in fi.params():
+            vs = _reaching(fi, ret.value.id, ret, hn)
+            if not vs:
+                out.append((ret, None))
+            else:
+                out.extend((ret, v) for _, v in vs)
+        else:
+            out.append((ret, ret.value))
+    return out
+
+
+# ---------------------------------------------------------------------------------------------- R16.b
+def rule_b(rep, cx):
+    ck, dep, repo = cx.ck, cx.dep, cx.repo
     rep.rule('R16.b', 'every call in JSONCookie.unquote is under except Exception -> UnquoteError')
     uq = ck.func('JSONCookie.unquote')
     calls = [c for c in walk_body(uq.node) if isinstance(c, ast.Call) and not (isinstance(stmt_of(ck, c), ast.Raise))]
@@ -132,38 +259,91 @@ def run(rep):
         n += 1
         h = protected_by(uq, c, 'Exception')
         ok = h is not None and all(raise_type(r) == 'UnquoteError' for r in ast.walk(h) if isinstance(r, ast.Raise)) \
-            and isinstance(h.body[-1], ast.Raise)
+            and handler_reraises_always(uq, h)
         rep.check('R16.b', fkey(uq, c), ok, 'failure of %s becomes UnquoteError' % short(c, 40) if ok else
                   '%s can raise something other than UnquoteError out of unquote (the dependency only expects UnquoteError)'
                   % short(c, 60), ck, c)
     if n < 2:
         raise AnalysisError('JSONCookie.unquote: decoding calls not found')
+    jc = ck.cls('JSONCookie')
     # writer / reader agreement: the payload encoder of quote() and the decoder of unquote() are the two halves of one codec
     PAIRS = {'b64encode': 'b64decode', 'urlsafe_b64encode': 'urlsafe_b64decode', 'standard_b64encode': 'standard_b64decode',
              'b32encode': 'b32decode', 'b16encode': 'b16decode', 'hexlify': 'unhexlify', 'encodebytes': 'decodebytes'}
     qf = ck.func('JSONCookie.quote')
     encs = [call_tail(c) for c in walk_body(qf.node) if isinstance(c, ast.Call) and call_tail(c) in PAIRS]
     decs = [call_tail(c) for c in walk_body(uq.node) if isinstance(c, ast.Call) and call_tail(c) in PAIRS.values()]
+    for what, found, f_ in (('encoder', encs, qf), ('decoder', decs, uq)):
+        if not found and (_opaque_calls(cx, jc, f_) or not (encs or decs)):
+            raise AnalysisError('%s: payload %s not found (work is done in %s, which could not be followed)'
+                                % (f_.qualname, what, ', '.join(_opaque_calls(cx, jc, f_)) or 'an unknown place'))
     ok = len(encs) == 1 and len(decs) == 1 and PAIRS[encs[0]] == decs[0]
     rep.check('R16.b', '%s::JSONCookie quote/unquote codec' % COOKIE, ok, 'quote() and unquote() use matching halves of one codec (%s / %s)' % (encs, decs) if ok else
               'quote() encodes with %s but unquote() decodes with %s: values whose encoding differs between the two alphabets are silently '
               'dropped (the whole cookie is discarded as unquotable)' % (encs, decs), ck, qf.node)
-    sers = [norm(c.func) for c in walk_body(qf.node) if isinstance(c, ast.Call) and call_tail(c) == 'dumps'] + \
-        [norm(c.func) for c in walk_body(uq.node) if isinstance(c, ast.Call) and call_tail(c) == 'loads']
-    ok = len(sers) == 2 and sers[0].rsplit('.', 1)[0] == sers[1].rsplit('.', 1)[0]
+    sers = [_receiver(qf, jc, c) for c in walk_body(qf.node) if isinstance(c, ast.Call) and call_tail(c) == 'dumps'] + \
+        [_receiver(uq, jc, c) for c in walk_body(uq.node) if isinstance(c, ast.Call) and call_tail(c) == 'loads']
+    ok = len(sers) == 2 and sers[0] == sers[1]
     rep.check('R16.b', '%s::JSONCookie quote/unquote serializer' % COOKIE, ok, 'dumps / loads come from the same serialization module' if ok else
               'quote() and unquote() use different serializers: %s' % sers, ck, qf.node)
-    tx = [norm(c) for c in walk_body(qf.node) if isinstance(c, ast.Call) and call_tail(c) == 'encode' and c.args] + \
-        [norm(c) for c in walk_body(uq.node) if isinstance(c, ast.Call) and call_tail(c) == 'decode' and c.args]
-    charsets = set(repo.try_fold(c.args[0], ck) for f_ in (qf, uq) for c in walk_body(f_.node)
-                   if isinstance(c, ast.Call) and call_tail(c) in ('encode', 'decode') and c.args)
+    charsets = set(_charset(cx, c) for f_ in (qf, uq) for c in walk_body(f_.node)
+                   if isinstance(c, ast.Call) and call_tail(c) in ('encode', 'decode') and isinstance(c.func, ast.Attribute))
     rep.check('R16.b', '%s::JSONCookie quote/unquote charset' % COOKIE, len(charsets) == 1, 'text is encoded and decoded with the same charset %s' % sorted(charsets) if len(charsets) == 1 else
               'quote()/unquote() use different charsets: %s' % sorted(map(str, charsets)), ck, qf.node)
     k, m, ue = repo.resolve(ck, 'UnquoteError')
     rep.check('R16.b', '%s::UnquoteError' % COOKIE, k == 'class' and m is dep, 'UnquoteError is the dependency\'s own class' if k == 'class' and m is dep else
               'UnquoteError is not the class secure_cookie catches', ck)
 
-    # ---- R16.c -----------------------------------------------------------
+
+def _opaque_calls(cx, ci, fi):
+    """Calls of functions of the analysed module / methods of the class that were not dissolved into ``fi``."""
+    out = []
+    for c in walk_body(fi.node):
+        if not isinstance(c, ast.Call):
+            continue
+        f = c.func
+        if isinstance(f, ast.Attribute) and norm(f.value) in ('cls', 'self', ci.name) and f.attr in ci.methods:
+            out.append(norm(f))
+        elif isinstance(f, ast.Name) and cx.repo.resolve(cx.ck, f.id)[0] == 'func' and cx.repo.resolve(cx.ck, f.id)[1] is cx.ck:
+            out.append(f.id)
+    return out
+
+
+def _receiver(fi, ci, call):
+    """The object a ``X.dumps`` / ``X.loads`` call is made on: a local naming it is followed, a class attribute read
+    through cls / self / the class name is replaced by its value (``cls.serialization_method`` -> ``json``)."""
+    e = _follow(fi, call.func.value) if isinstance(call.func, ast.Attribute) else call.func
+    if isinstance(e, ast.Attribute) and norm(e.value) in ('cls', 'self', ci.name) and ci.class_attrs.get(e.attr) is not None:
+        return norm(ci.class_attrs[e.attr])
+    return norm(e)
+
+
+def _charset(cx, call):
+    a = argn(call, 'encoding', 0)
+    if a is None:
+        return 'utf-8'
+    v = cx.fold(a)
+    if isinstance(v, str):
+        try:
+            return codecs.lookup(v).name
+        except LookupError:
+            return v
+    return norm(a)
+
+
+def _follow(fi, e, depth=0):
+    """Follow a local that is bound exactly once (a named temporary) to the expression it names."""
+    while isinstance(e, ast.Name) and depth < 6 and e.id not in fi.params():
+        defs = _value_defs(fi, e.id)
+        if not defs or len(defs) != 1:
+            break
+        e = defs[0][1]
+        depth += 1
+    return e
+
+
+# ---------------------------------------------------------------------------------------------- R16.c
+def rule_c(rep, cx):
+    ck, dep, un, ju = cx.ck, cx.dep, cx.un, cx.ju
     rep.rule('R16.c', 'in SecureCookie.unserialize the MAC comparison dominates unquote and expiry; clastic keeps the MAC')
     is_mac = lambda t: isinstance(t, ast.Call) and call_tail(t) in ('safe_str_cmp', 'compare_digest') and 'digest' in norm(t)
     uses = [c for c in walk_body(un.node) if isinstance(c, ast.Call) and call_tail(c) == 'unquote']
@@ -185,73 +365,303 @@ def run(rep):
         ok = nm not in jc.methods and nm not in jc.class_attrs
         rep.check('R16.c', '%s::JSONCookie.%s' % (COOKIE, nm), ok, 'JSONCookie inherits %s from SecureCookie' % nm if ok else
                   'JSONCookie overrides %s (the MAC / cookie plumbing is no longer the dependency\'s)' % nm, ck, jc.node)
-    sc = sup_calls[0]
+    sc = cx.sup_calls[0]
     ps = [p for p in ju.params() if p != 'cls']
-    ok = len(sc.args) == 2 and norm(sc.args[1]) == ps[1] and ps[0] in [x.id for x in ast.walk(sc.args[0]) if isinstance(x, ast.Name)]
-    # the string handed on derives only from the received string through strip()
-    sasg = [s for s in stmts_of(ju.node) if isinstance(s, ast.Assign) and norm(s.targets[0]) == ps[0]]
-    ok = ok and all(isinstance(s.value, ast.Call) and call_tail(s.value) in ('strip', 'lstrip', 'rstrip') and
-                    norm(s.value.func.value) == ps[0] for s in sasg)
+    plain = not any(isinstance(a, ast.Starred) for a in sc.args) and not any(k.arg is None for k in sc.keywords) \
+        and len(sc.args) + len(sc.keywords) == 2
+    a_str, a_key = argn(sc, 'string', 0), argn(sc, 'secret_key', 1)
+    # the key is handed on as received; the string handed on derives from the received string only through strip()
+    ok = plain and a_str is not None and a_key is not None and norm(a_key) == ps[1] and not assigned_value(ju.node, ps[1]) \
+        and _stripped_param(ju, a_str, ps[0], set())
     rep.check('R16.c', fkey(ju, 'delegates'), ok, 'unserialize hands (stripped string, same secret_key) to SecureCookie.unserialize' if ok else
               'JSONCookie.unserialize does not delegate (string, secret_key) unchanged to the dependency', ck, sc)
-    rets = returns_of(ju)
-    ok = any(r.value is sc for r in rets)
+    ok = _returns_call(ju, sc)
     rep.check('R16.c', fkey(ju, 'returns verified cookie'), ok, 'the verified cookie object is what is returned' if ok else
               'the result of the dependency\'s verification is not what is returned', ck, ju.node)
     rep.floor('R16.c', 8)
 
-    # ---- R16.d -----------------------------------------------------------
+
+def _stripped_param(fi, e, param, seen):
+    """``e`` is the parameter itself, a strip()/lstrip()/rstrip() of such a value, or a local every binding of which
+    is such a value (``unwrapped = string.strip('"')``; ``string = string.strip('"')``)."""
+    if isinstance(e, ast.Call) and isinstance(e.func, ast.Attribute) and e.func.attr in STRIPS and not e.keywords \
+            and len(e.args) <= 1 and not any(isinstance(a, ast.Starred) for a in e.args):
+        return _stripped_param(fi, e.func.value, param, seen)
+    if isinstance(e, ast.Name):
+        if e.id in seen:
+            return True
+        defs = _value_defs(fi, e.id)
+        if defs is None:
+            return False
+        if e.id != param and (not defs or e.id in fi.params()):
+            return False
+        return all(_stripped_param(fi, v, param, seen | {e.id}) for _, v in defs)
+    return False
+
+
+def _returns_call(fi, call):
+    """The value of ``call`` is what the function returns when the call succeeds: ``return <call>``, or
+    ``v = <call>`` and every return that binding reaches (without a re-binding) is ``return v``."""
+    st = stmt_of(fi.mod, call)
+    if isinstance(st, ast.Return):
+        return st.value is call
+    if not (isinstance(st, ast.Assign) and st.value is call and len(st.targets) == 1 and isinstance(st.targets[0], ast.Name)):
+        return False
+    name = st.targets[0].id
+    defs = _value_defs(fi, name)
+    if defs is None:
+        return False
+    cfg = cfg_of(fi)
+    dn = set()
+    for d, _ in defs:
+        dn.update(cfg.nodes_of(d))
+    mine = cfg.nodes_of(st)
+    after = [m for n in mine for m in cfg.succ[n] if (n, m) not in cfg.exc_edges and m not in dn]
+    r = cfg.reach(after, avoid=dn, normal_only=True)
+    rets = [cfg.nodes[n].stmt for n in r if cfg.nodes[n].kind == 'stmt' and isinstance(cfg.nodes[n].stmt, ast.Return)]
+    if not rets or cfg.exit in [m for n in r for m in cfg.succ[n] if not isinstance(cfg.nodes[n].stmt, ast.Return)]:
+        return False
+    return all(isinstance(x.value, ast.Name) and x.value.id == name for x in rets)
+
+
+# ---------------------------------------------------------------------------------------------- R16.d
+def rule_d(rep, cx):
+    ck, rq, repo = cx.ck, cx.rq, cx.repo
     rep.rule('R16.d', 'key/name plumbing, provide-under-name, save on every normal path, expiry stamping')
-    lcall = load_calls[0]
-    ok = norm(kwarg(lcall, 'secret_key')) == 'self.secret_key' and norm(kwarg(lcall, 'key')) == 'self.cookie_name' and \
-        lcall.args and norm(lcall.args[0]) == 'request' and norm(lcall.func.value) in ('self._cookie_type', 'JSONCookie')
+    lcall = cx.load_calls[0]
+    recv = _follow(rq, lcall.func.value)
+    ok = norm(argn(lcall, 'secret_key', 2)) == 'self.secret_key' and norm(argn(lcall, 'key', 1)) == 'self.cookie_name' and \
+        norm(argn(lcall, 'request', 0)) == 'request' and norm(recv) in ('self._cookie_type', 'type(self)._cookie_type', 'self.__class__._cookie_type', 'JSONCookie')
     rep.check('R16.d', fkey(rq, 'load_cookie args'), ok, 'load_cookie(request, key=self.cookie_name, secret_key=self.secret_key)' if ok else
               'load_cookie is not given the middleware\'s own key/name: %s' % short(lcall), ck, lcall)
     ct = ck.cls('SignedCookieMiddleware').class_attrs.get('_cookie_type')
     rep.check('R16.d', '%s::SignedCookieMiddleware._cookie_type' % COOKIE, norm(ct) == 'JSONCookie', '_cookie_type is JSONCookie' if norm(ct) == 'JSONCookie' else
               '_cookie_type is %s' % norm(ct), ck)
     init = ck.func('SignedCookieMiddleware.__init__')
-    sk = [s for s in stmts_of(init.node) if isinstance(s, ast.Assign) and norm(s.targets[0]) == 'self.secret_key']
-    ok = len(sk) == 1 and norm(sk[0].value) in ('secret_key or self._get_random()', 'secret_key if secret_key else self._get_random()',
-                                                 'secret_key if secret_key is not None else self._get_random()')
+    mw = ck.cls('SignedCookieMiddleware')
+    sk = [s for s in stmts_of(init.node) if isinstance(s, ast.Assign) and any(norm(t) == 'self.secret_key' for t in s.targets)]
+    atoms = []
+    for s in sk:
+        atoms += _atoms(init, s.value, set())
+    # every value self.secret_key may get is the constructor argument or a fresh random key (a direct os.urandom call or
+    # a no-argument method of the class that returns one)
+    sources = [(x, _random_calls(mw, x)) for k, x in atoms if k == 'call']
+    ok = bool(sk) and ('param', 'secret_key') in atoms and bool(sources) and all(r for _, r in sources) and \
+        all(k == 'call' or (k, x) == ('param', 'secret_key') for k, x in atoms)
     rep.check('R16.d', fkey(init, 'self.secret_key'), ok, 'secret key is the constructor argument, else random' if ok else
               'self.secret_key is not "secret_key or self._get_random()": %s' % (short(sk[0].value) if sk else 'missing'), ck, init.node)
-    gr = ck.func('SignedCookieMiddleware._get_random')
-    rv = returns_of(gr)
-    ok = len(rv) == 1 and isinstance(rv[0].value, ast.Call) and norm(rv[0].value.func) in ('os.urandom', 'secrets.token_bytes') and \
-        isinstance(rv[0].value.args[0], ast.Constant) and rv[0].value.args[0].value >= 16
-    rep.check('R16.d', fkey(gr), ok, 'random key is >= 16 bytes of os.urandom' if ok else 'random key is not os.urandom(>=16)', ck, gr.node)
-    pv = [s for s in stmts_of(init.node) if isinstance(s, ast.Assign) and norm(s.targets[0]) == 'self.provides']
-    ok = len(pv) == 1 and norm(pv[0].value) in ('(arg_name,)', '(self.arg_name,)', '[arg_name]')
+    rcalls = []
+    for _, r in sources:
+        rcalls += [x for x in (r or []) if not any(x[1] is y[1] for y in rcalls)]
+    if not rcalls and '_get_random' in mw.methods:
+        rcalls = _random_calls(mw, ast.Call(func=ast.Attribute(value=ast.Name(id='self', ctx=ast.Load()), attr='_get_random', ctx=ast.Load()),
+                                            args=[], keywords=[])) or [(mw.methods['_get_random'], None)]
+    for gr, rcall in rcalls:
+        nbytes = cx.fold(rcall.args[0]) if rcall is not None and len(rcall.args) == 1 and not rcall.keywords else None
+        ok = isinstance(nbytes, int) and not isinstance(nbytes, bool) and nbytes >= 16
+        rep.check('R16.d', fkey(gr) if gr is not init else fkey(init, 'random key'), ok,
+                  'random key is >= 16 bytes of os.urandom' if ok else 'random key is not os.urandom(>=16)', ck, rcall or gr.node)
+    if not rcalls:
+        rep.fail('R16.d', fkey(init, 'random key'), 'no os.urandom source for the default secret key', ck, init.node)
+    pv = [s for s in stmts_of(init.node) if isinstance(s, ast.Assign) and any(norm(t) == 'self.provides' for t in s.targets)]
+    ok = len(pv) == 1 and _only_arg_name(init, _follow(init, pv[0].value)) and not assigned_value(init.node, 'arg_name')
     rep.check('R16.d', fkey(init, 'self.provides'), ok, 'provides is exactly (arg_name,)' if ok else 'provides is not (arg_name,)', ck, init.node)
-    cvar = norm(stmt_of(ck, lcall).targets[0]) if isinstance(stmt_of(ck, lcall), ast.Assign) else None
+    lst = stmt_of(ck, lcall)
+    cvar = lst.targets[0].id if isinstance(lst, ast.Assign) and lst.value is lcall and len(lst.targets) == 1 \
+        and isinstance(lst.targets[0], ast.Name) else None
+    if cvar is None:
+        raise AnalysisError('SignedCookieMiddleware.request: the loaded cookie is not bound to a local')
     ncalls = [c for c in walk_body(rq.node) if isinstance(c, ast.Call) and isinstance(c.func, ast.Name) and c.func.id == 'next']
-    ok = len(ncalls) == 1 and len(ncalls[0].keywords) == 1 and ncalls[0].keywords[0].arg is None and \
-        norm(ncalls[0].keywords[0].value) == '{self.arg_name: %s}' % cvar
+    ok = False
+    if len(ncalls) == 1 and not ncalls[0].args and len(ncalls[0].keywords) == 1 and ncalls[0].keywords[0].arg is None:
+        kw0 = ncalls[0].keywords[0].value
+        kwv = _follow(rq, kw0)
+        # a named mapping must be used for nothing but this call (no entries added on the way)
+        once = not isinstance(kw0, ast.Name) or sum(1 for x in walk_body(rq.node) if isinstance(x, ast.Name) and x.id == kw0.id) == 2
+        ok = once and isinstance(kwv, ast.Dict) and len(kwv.keys) == 1 and norm(kwv.keys[0]) == 'self.arg_name' and norm(kwv.values[0]) == cvar
     rep.check('R16.d', fkey(rq, 'next(**{arg_name: cookie})'), ok, 'the loaded cookie is provided under self.arg_name' if ok else
               'next() is not called with {self.arg_name: <loaded cookie>}', ck, ncalls[0] if ncalls else rq.node)
     cfg = cfg_of(rq)
     nd = next_derived(rq)
     saves = [c for c in walk_body(rq.node) if isinstance(c, ast.Call) and call_tail(c) == 'save_cookie']
     nst = stmt_of(ck, ncalls[0]) if ncalls else None
-    ok = bool(saves) and nst is not None and all(norm(c.func.value) == cvar and c.args and norm(c.args[0]) in nd for c in saves) and \
+    ok = bool(saves) and nst is not None and \
+        all(norm(c.func.value) == cvar and norm(argn(c, 'response', 0)) in nd for c in saves) and \
         cfg.must_pass(cfg.nodes_of_all([stmt_of(ck, c) for c in saves]), cfg.nodes_of(nst), cfg.exit, normal_only=True)
     rep.check('R16.d', fkey(rq, 'save_cookie'), ok, 'cookie.save_cookie(<next() result>) runs on every normal path' if ok else
               'save_cookie on the next() result can be skipped', ck, saves[0] if saves else rq.node)
     ok = all(isinstance(r.value, ast.Name) and r.value.id in nd for r in returns_of(rq)) and returns_of(rq)
     rep.check('R16.d', fkey(rq, 'return'), bool(ok), 'returns the next() result' if ok else 'does not return the next() result', ck, rq.node)
-    kw = [s for s in stmts_of(rq.node) if isinstance(s, ast.Assign) and isinstance(s.value, ast.Call) and call_name(s.value) == 'dict'
-          and kwarg(s.value, 'key') is not None]
-    ok = bool(kw) and norm(kwarg(kw[0].value, 'key')) == 'self.cookie_name'
-    rep.check('R16.d', fkey(rq, 'save key'), ok, 'cookie is saved under self.cookie_name' if ok else 'cookie is not saved under self.cookie_name', ck, rq.node)
-    stamps = [s for s in stmts_of(rq.node) if isinstance(s, ast.Assign) and norm(s.targets[0]) == "%s['_expires']" % cvar]
-    for s in stamps:
+    for s, absent_implied in _stamps(cx, rq, cvar):
         cs = conds(rq, s)
-        ok = has_cond(cs, lambda t: norm(t) == "'_expires' not in %s" % cvar, True) and \
-            has_cond(cs, lambda t: norm(t) == 'self.expiry != NEVER', True) and has_cond(cs, lambda t: norm(t) == 'self.expiry != SESSION', True)
+        excluded = _excluded_expiry(cx, rq, cs)
+        numeric = all(any(_same_const(v, x) for x in excluded) for v in _markers(cx))
+        absent = absent_implied or any(_absent_cond(cx, t, p, cvar) for t, p in cs)
+        ok = numeric and absent
         rep.check('R16.d', fkey(rq, '_expires stamp'), ok, 'expiry is stamped only when absent and expiry is numeric' if ok else
                   '_expires is stamped unconditionally / for non-numeric expiry: %s' % '; '.join(cond_texts(cs)), ck, s)
+    ok = bool(saves) and all(_saved_under(cx, rq, c) == 'self.cookie_name' for c in saves)
+    rep.check('R16.d', fkey(rq, 'save key'), ok, 'cookie is saved under self.cookie_name' if ok else 'cookie is not saved under self.cookie_name', ck, rq.node)
     rep.floor('R16.d', 9)
+
+
+def _atoms(fi, e, seen):
+    """The values an expression may evaluate to, as far as ``or`` / conditional expressions / locals go:
+    [('param', name) | ('call', call node) | ('expr', text)]."""
+    if isinstance(e, ast.BoolOp) and isinstance(e.op, ast.Or):
+        out = []
+        for v in e.values:
+            out += _atoms(fi, v, seen)
+        return out
+    if isinstance(e, ast.IfExp):
+        return _atoms(fi, e.body, seen) + _atoms(fi, e.orelse, seen)
+    if isinstance(e, ast.Name):
+        if e.id in seen:
+            return []
+        out = []
+        if e.id in fi.params():
+            out.append(('param', e.id))
+        defs = assigned_value(fi.node, e.id)
+        if not defs and not out:
+            return [('expr', e.id)]
+        for st, v, idx in defs:
+            if idx is not None or not isinstance(st, (ast.Assign, ast.AnnAssign)):
+                out.append(('expr', short(st, 40)))
+            else:
+                out += _atoms(fi, v, seen | {e.id})
+        return out
+    if isinstance(e, ast.Call):
+        return [('call', e)]
+    return [('expr', norm(e))]
+
+
+RANDOM_BYTES = ('os.urandom', 'secrets.token_bytes')
+
+
+def _random_calls(ci, call):
+    """[(function it is written in, the os.urandom(..) call)] a call stands for: the call itself, or -- for a
+    no-argument ``self.m()`` -- the value every return of method ``m`` gives.  None: not a random-bytes source."""
+    if norm(call.func) in RANDOM_BYTES:
+        return [(ci.methods['__init__'], call)]
+    f = call.func
+    if isinstance(f, ast.Attribute) and norm(f.value) == 'self' and f.attr in ci.methods and not call.args and not call.keywords:
+        m = ci.methods[f.attr]
+        rv = [_follow(m, r.value) if r.value is not None else None for r in returns_of(m)]
+        if rv and all(isinstance(v, ast.Call) and norm(v.func) in RANDOM_BYTES for v in rv):
+            return [(m, v) for v in rv]
+    return None
+
+
+def _only_arg_name(fi, e):
+    """``(arg_name,)`` / ``[arg_name]`` / ``tuple([arg_name])`` -- the one provided name is the arg_name argument."""
+    if isinstance(e, ast.Call) and isinstance(e.func, ast.Name) and e.func.id in ('tuple', 'list') and len(e.args) == 1 and not e.keywords:
+        e = _follow(fi, e.args[0])
+    return isinstance(e, (ast.Tuple, ast.List)) and len(e.elts) == 1 and norm(e.elts[0]) in ('arg_name', 'self.arg_name')
+
+
+def _saved_under(cx, fi, call):
+    """Text of the expression the cookie name (parameter ``key`` of SecureCookie.save_cookie) is given by in this call:
+    a keyword / second positional argument, or the entry of the ``**mapping`` built in the function (dict literal,
+    dict(...), item assignment, update -- later layers win).  None: the default name is used / not decidable."""
+    direct = argn(call, 'key', 1)
+    if direct is not None:
+        return norm(direct)
+    val = None
+    for k in call.keywords:
+        if k.arg is not None:
+            continue
+        src = k.value
+        if isinstance(src, ast.Name):
+            layers = layers_of_var(fi.node, src.id)
+        else:
+            layers = layers_of_expr(src)
+        for l in layers:
+            if l.keys is not None:
+                if 'key' in l.keys and not (l.below and val is not None):
+                    val = norm(l.values['key'])
+                continue
+            # a layer of unknown content: an item assignment with a non-literal key is harmless if the key folds to
+            # some other name; anything else may overwrite the entry
+            nd_ = l.node
+            if isinstance(nd_, ast.Assign):
+                ks = [cx.fold(t.slice) for t in nd_.targets if isinstance(t, ast.Subscript)]
+                if ks and all(isinstance(x, str) and x != 'key' for x in ks):
+                    continue
+            raise AnalysisError('save_cookie arguments: cannot decide the entries of %s' % l.text)
+    return val
+
+
+def _stamps(cx, fi, cvar):
+    """Statements that write the expiry entry of the cookie: [(stmt, absence implied by the operation itself)]."""
+    out = []
+    for s in stmts_of(fi.node):
+        if isinstance(s, (ast.Assign, ast.AugAssign, ast.AnnAssign)):
+            tg = s.targets if isinstance(s, ast.Assign) else [s.target]
+            for t in tg:
+                if isinstance(t, ast.Subscript) and norm(t.value) == cvar and cx.fold(t.slice) == EXPIRES:
+                    out.append((s, False))
+        elif isinstance(s, ast.Expr) and isinstance(s.value, ast.Call) and isinstance(s.value.func, ast.Attribute) \
+                and norm(s.value.func.value) == cvar:
+            c = s.value
+            if c.func.attr == 'setdefault' and c.args and cx.fold(c.args[0]) == EXPIRES:
+                out.append((s, True))
+            elif c.func.attr == 'set_expires':
+                out.append((s, False))
+            elif c.func.attr == 'update':
+                keys = [k.arg for k in c.keywords]
+                for a in c.args:
+                    v = _follow(fi, a)
+                    keys += [cx.fold(k) if k is not None else None for k in v.keys] if isinstance(v, ast.Dict) else [None]
+                if EXPIRES in keys or None in keys:
+                    out.append((s, False))
+    return out
+
+
+def _absent_cond(cx, t, pol, cvar):
+    """``'_expires' not in cookie`` holds / ``'_expires' in cookie`` does not hold (key through module constants)."""
+    if not (isinstance(t, ast.Compare) and len(t.ops) == 1 and norm(t.comparators[0]) in (cvar, cvar + '.keys()') and cx.fold(t.left) == EXPIRES):
+        return False
+    return (isinstance(t.ops[0], ast.NotIn) and pol is True) or (isinstance(t.ops[0], ast.In) and pol is False)
+
+
+def _markers(cx):
+    """The non-numeric expiry settings: the module constants NEVER and SESSION."""
+    out = []
+    for nm in ('NEVER', 'SESSION'):
+        v = cx.fold(ast.Name(id=nm, ctx=ast.Load()))
+        if v is _NOFOLD:
+            raise AnalysisError('module constant %s not found in %s' % (nm, COOKIE))
+        out.append(v)
+    return out
+
+
+def _same_const(a, b):
+    return type(a) is type(b) and a == b
+
+
+def _excluded_expiry(cx, fi, cs):
+    """Constant values the path conditions say self.expiry is different from (``!=`` holds, ``==`` fails,
+    ``not in (..)`` holds, ``in (..)`` fails; either operand order; a local naming self.expiry is followed)."""
+    out = []
+    for t, pol in cs:
+        if not (isinstance(t, ast.Compare) and len(t.ops) == 1):
+            continue
+        op, l, r = t.ops[0], _follow(fi, t.left), _follow(fi, t.comparators[0])
+        if isinstance(op, (ast.Eq, ast.NotEq)):
+            if norm(r) == 'self.expiry':
+                l, r = r, l
+            if norm(l) != 'self.expiry' or (isinstance(op, ast.NotEq)) is not pol:
+                continue
+            v = cx.fold(r)
+            if v is not _NOFOLD:
+                out.append(v)
+        elif isinstance(op, (ast.In, ast.NotIn)):
+            if norm(l) != 'self.expiry' or (isinstance(op, ast.NotIn)) is not pol:
+                continue
+            v = cx.fold(r)
+            if isinstance(v, (tuple, list, set, frozenset)):
+                out.extend(v)
+    return out
 
 
 def _is_empty(e):
